@@ -74,6 +74,9 @@ fn ilv_programs() -> Vec<Program> {
         vec![Op::Upsert { k: 2, value: true, w: Some(3), ttl_ms: None, remove_ttl: false }],
         vec![Op::MultiRead { keys: vec![1, 2], variant: ReadVariant::MultiGet }],
     ]));
+    // duplicates refused by the worker (two puts of one new key in flight) are not admission refusals
+    v.push(mk("put(c) || put(c)", 100, vec![put(1, 2)], vec![vec![put(3, 2)], vec![put(3, 3)]]));
+    v.push(mk("put(c);put_ttl(c);upsert-as-put(c) unawaited", 100, vec![put(1, 2)], vec![vec![put(3, 2), put_ttl(3, 3, 5000), Op::Upsert { k: 3, value: true, w: Some(4), ttl_ms: None, remove_ttl: false }]]));
     // the two writers of the total weight: the worker (weight update / delete / evicting put) and the sweeper
     v.push(mk("upsert(a,w=5) || {tick} sweeping b", 100, vec![put(1, 2), put_ttl(2, 3, 1000), adv(3000)], vec![
         vec![Op::Upsert { k: 1, value: true, w: Some(5), ttl_ms: None, remove_ttl: false }],
